@@ -1,15 +1,19 @@
 SPECIFICATION MCSpec
 CONSTANTS Classes = {1, 2, 3, 4}
-  Codes = {0, 2, 3, 7}
-  InitSizes = {4}
-  Ptrs = {1, 2}
+  Codes = {7, 8}
+  SortedHash = TRUE
+  Full = FALSE
+  InitSizes = {8}
+  Ptrs = {1}
   Vals = {1}
-  MaxSteps = 3
+  SetVals <- NoSet
+  OutModes <- OutOnly
+  MaxSteps = 0
   GenDepth = 0
-  FlagScripts <- FSSmall
+  FlagScripts <- FSLayout
   DestructorModes <- OnlyDestructors
 VIEW RealState
 CONSTRAINT Bound
 INVARIANTS CountInv HashInv NoDupClass Reachable AbsentNotFound DispOrder SizeInv IterElemInv IterWindowInv IterNoRepeat IterComplete
-
+PROPERTY Refines
 CHECK_DEADLOCK FALSE
